@@ -155,6 +155,7 @@ def matchTest (env : Env) (ax : Axis) (t : Test) (x : Ref) : Bool :=
   | .anyIn p => match env.doc.elem? x with | some e => e.mod == p | none => false
   | .node => !(env.q.nodeTests && x.isText)
   | .text => x.isText && (!env.q.textQuirk || ax == .child)
+  | .comment => false
 
 /-- nodes selected by `ax::t` from context node `c`, in document order -/
 def candidates (env : Env) (ax : Axis) (t : Test) (c : Ref) : List Ref :=
